@@ -23,7 +23,7 @@ def make_scratch(repo='/repo'):
 
 
 def apply_patch(d, patch):
-    r = subprocess.run(['patch', '-p1', '--no-backup-if-mismatch', '-i', os.path.abspath(patch)],
+    r = subprocess.run(['patch', '-p1', '--binary', '--no-backup-if-mismatch', '-i', os.path.abspath(patch)],
                        cwd=d, capture_output=True, text=True)
     if r.returncode != 0:
         raise RuntimeError('patch failed: ' + r.stdout + r.stderr)
